@@ -1,6 +1,7 @@
 package relaysim
 
 import (
+	"encoding/json"
 	"time"
 
 	"verif/simrt"
@@ -249,4 +250,43 @@ func GenShapedDoc(p *simrt.Tape, o GenOpts) *Doc {
 		d.Shape = append(d.Shape, ShapeMut{Node: p.Intn(64), Repl: p.Pick(len(ShapeRepls))})
 	}
 	return d
+}
+
+// TweakGas returns a copy of a usable document in which only gas limits differ (every level that specifies one,
+// and the top level in any case): a configuration change that alters nothing but what relays are told.
+func TweakGas(p *simrt.Tape, d *Doc) *Doc {
+	b, err := json.Marshal(d)
+	if err != nil {
+		panic(err)
+	}
+	n := &Doc{}
+	if err := json.Unmarshal(b, n); err != nil {
+		panic(err)
+	}
+	pool := []uint64{30000000, 36000000, 45000000, 60000000}
+	other := func(cur *uint64) *uint64 {
+		i := p.Pick(len(pool))
+		if cur != nil && *cur == pool[i] {
+			i = (i + 1) % len(pool) // never a loop on drawn values: a shrunk tape yields zeros for ever
+		}
+		g := pool[i]
+		return &g
+	}
+	switch {
+	case n.V2 != nil:
+		n.V2.Gas = other(n.V2.Gas)
+		for i := range n.V2.Relays {
+			if n.V2.Relays[i].Gas != nil {
+				n.V2.Relays[i].Gas = other(n.V2.Relays[i].Gas)
+			}
+		}
+		for i := range n.V2.Proposers {
+			if n.V2.Proposers[i].Gas != nil {
+				n.V2.Proposers[i].Gas = other(n.V2.Proposers[i].Gas)
+			}
+		}
+	case n.V1 != nil && n.V1.Default != nil:
+		n.V1.Default.Gas = other(n.V1.Default.Gas)
+	}
+	return n
 }
